@@ -158,6 +158,7 @@ def infer (reg : Registry) (t : Table) (phase : Name) : Expr → Except KErr Kin
       inferAllOk reg t phase cs
       .ok .boolean
   | .ite _ _ _ => .error .unsupported
+  | .attr _ _ => .error .unsupported
   | .min _ => .ok (.scalar true)
   | .max _ => .ok (.scalar true)
 /-- `map_sum`: children that cannot be inferred are skipped -/
